@@ -172,6 +172,7 @@ class MarginRule(cssrule.CSSRule):
                 # TODO?
                 # , exception=xml.dom.InvalidModificationErr
             ),
+            PreDef.S(toSeq=False, optional=True),
             PreDef.char('OPEN', '{'),
             Sequence(
                 Choice(PreDef.unknownrule(toStore='@'), styletokens),
@@ -180,7 +181,10 @@ class MarginRule(cssrule.CSSRule):
             PreDef.char('CLOSE', '}', stopAndKeep=True),
         )
         # parse
-        ok, seq, store, unused = ProdParser().parse(cssText, 'MarginRule', prods)
+        # white space is significant in values: kept with the style tokens
+        ok, seq, store, unused = ProdParser().parse(
+            cssText, 'MarginRule', prods, checkS=True
+        )
 
         if ok:
             # new style, parsed before anything is set as it may raise:
